@@ -54,7 +54,7 @@ for prop in sorted(os.listdir(SRC)):
         finally:
             json.dump(meta, open(mp, "w"), indent=1)
             subprocess.run(["git", "-C", "/repo", "worktree", "remove", "--force", wt], capture_output=True)
-            subprocess.run(["rm", "-rf", os.path.join(ROOT, "harness", "target-" + hashlib.sha1(wt.encode()).hexdigest()[:8])])
+            subprocess.run(["rm", "-rf", os.path.join(ROOT, "harness", "target-" + hashlib.sha1(wt.encode()).hexdigest()[:8]), os.path.join(ROOT, "work", "hm-" + hashlib.sha1(wt.encode()).hexdigest()[:8]), os.path.join(ROOT, "work", "scratch-" + hashlib.sha1(wt.encode()).hexdigest()[:8])])
 rows = []
 for rid in sorted(os.listdir(DST)):
     mp = os.path.join(DST, rid, "meta.json")
